@@ -84,7 +84,8 @@ CHECKS["C05"] = {
                   "every indentation, every comment character and EVERY text of length <= L over {comment chars, delimiters, blank, quote, brackets, letter, =} "
                   "is parsed with and without the line by the real code; listings must be identical and both reads must succeed; the character sets are passed in "
                   "buffers that held other sets during an unrelated preceding read; part insert-long: comment lines of 8 Ki .. 40000 characters with every token "
-                  "of 1 (quick) / <= 2 (thorough) structural characters placed at the offsets around 8192, 16384 and 32768",
+                  "of 1 (quick) / <= 2 (thorough) structural characters placed at the offsets around 8192, 16384 and 32768; part insert-format: ten texts that "
+                  "mean something to printf-style functions (%, %s, %n, 90%, over-wide widths)",
     "level_note": "bounded: N<=2, L<=3 (quick) / L<=4 and N<=3 with L<=3 (thorough); trusted: only the equality test (differential, no hand-written expectation)",
     "rule": "case = (configuration, base file, insertion point, indentation, comment char, text); non-trivial = text contains a structural character, or the line "
             "is indented, or it directly follows an entry line; distinct by construction",
@@ -94,6 +95,8 @@ CHECKS["C05"] = {
          "deadline_share": 0.5, "floor": {"quick": 100000, "thorough": 1000000}},
         {"name": "insert-long", "harness": "c05", "variant": "asan", "quick": ["--p0", 1, "--p1", 1, "--p3", 1], "thorough": ["--p0", 2, "--p1", 2, "--p3", 1],
          "deadline_share": 0.15, "floor": {"quick": 10000, "thorough": 100000}},
+        {"name": "insert-format", "harness": "c05", "variant": "asan", "quick": ["--p0", 2, "--p3", 2], "thorough": ["--p0", 3, "--p3", 2],
+         "deadline_share": 0.1, "floor": {"quick": 10000, "thorough": 100000}},
         {"name": "insert-3lines", "harness": "c05", "variant": "asan", "tiers": ["thorough"], "thorough": ["--p0", 3, "--p1", 3],
          "deadline_share": 0.35, "floor": {"thorough": 1000000}},
     ],
@@ -189,7 +192,7 @@ CHECKS["C16"] = {
             "distinct by construction; deviation = one file with non-default attributes",
     "deadline": {"quick": 100, "thorough": 900},
     "parts": [
-        {"name": "attributes", "harness": "c16", "variant": "asan", "quick": ["--p0", 2, "--p1", 1], "thorough": ["--p0", 3, "--p1", 2],
+        {"name": "attributes", "harness": "c16", "variant": "asan", "ldflags": ["-pthread"], "quick": ["--p0", 2, "--p1", 1], "thorough": ["--p0", 3, "--p1", 2],
          "floor": {"quick": 10000, "thorough": 100000}},
     ],
     "assumptions": ["checks run as root; a non-root run skips every case and fails closed on the non-trivial floor",
